@@ -159,10 +159,9 @@ def plan (m : St) (req res : List String) (o : Obs) : Plan :=
           else
             { durable := false, qr := false, epilogue := true, spOps := spOps, data := o.data, sys := o.sys,
               sysRec := [], sys2 := o.sys }
-        -- the harness drops the handles of the ephemeral savepoints a restore invalidated
-        let invalidated := ((step m (Op.commit t)).sps.filter (fun sp => !sp.persistent && !sp.valid)).map
-          (fun sp => Op.dropSp sp.sid)
-        .ops (Op.commit t :: invalidated)
+        -- the handles of the ephemeral savepoints a restore invalidated stay alive until the
+        -- harness has probed them (step `ProbeDead`)
+        .ops [Op.commit t]
   | ["BeginRead"] => if result = "ok" then .ops [Op.beginRead] else .ops []
   | [what] =>
     if what.startsWith "DropReader" then
@@ -174,6 +173,10 @@ def plan (m : St) (req res : List String) (o : Obs) : Plan :=
       | some sid => .ops [Op.dropSp sid]
       | none => if result = "none" then .ops [] else .resync
     else if what = "ListPsp" then .ops [Op.abort 0]
+    else if what = "ProbeDead" then
+      -- an empty write transaction in which every invalidated savepoint is offered to
+      -- restore_savepoint (and refused), aborted; then the handles are dropped
+      .ops (Op.abort 0 :: (m.sps.filter (fun sp => !sp.persistent && !sp.valid)).map (fun sp => Op.dropSp sp.sid))
     else if what = "quiesce-drop" then .ops (dropAll m)
     else if what = "quiesce" then .ops []
     else if what = "Reopen" then
